@@ -142,7 +142,17 @@ def run_family(ctx, pid):
         return h2["tm"] in ("leave_CONFIGURED", "enter_RUNNING") and c["plan"] == ["START_ACTIVITY", "STOP_ACTIVITY"] and not c["bodyfails"]
     meet = [c for c in cases if is_meet(c)]
     rest = [c for c in interesting if not is_meet(c)]
-    plain = rest[:(70 if quick else 600)] + meet
+    # a STOP that fails - through a critical hook at one of its moments or through its task commands - is followed by the API's
+    # GO_ERROR: the end of the run is recorded by two transitions in a row (C10: each stamp once; C09: what is reported)
+    STOPM = ("before_STOP_ACTIVITY", "leave_RUNNING", "after_STOP_ACTIVITY")
+
+    def is_failstop(c):
+        return c["plan"] == ["START_ACTIVITY", "STOP_ACTIVITY"] and 1 not in c["bodyfails"] and (
+            2 in c["bodyfails"] or any(h["fails"] and h["crit"] and h["tm"] in STOPM and (h["tm"], h["tw"]) == (h["am"], h["aw"])
+                                       for h in c["hooks"]))
+    failstop = [c for c in rest if is_failstop(c)]
+    rest = [c for c in rest if not is_failstop(c)]
+    plain = rest[:(70 if quick else 600)] + failstop[:(60 if quick else 600)] + meet
     # calls whose await point is reached long after their declared timeout
     slow = [c for c in rest if any(h["id"] == "h1" and h["tm"].endswith("START_ACTIVITY") and h["am"] == "after_STOP_ACTIVITY" for h in c["hooks"])
             and c["plan"] == ["START_ACTIVITY", "STOP_ACTIVITY"] and not c["bodyfails"]][:(4 if quick else 16)]
@@ -190,6 +200,7 @@ def judge(ctx, pid, scenarios, lines):
         ctx.drift.append({"scn": d[1], "line": d[2], "what": d[3], "model": by_id.get(d[1], {}).get("model")})
     seen = set()
     other = {}
+    forced = {ln.get("scn") for ln in lines if ln.get("ev") == "Hook" and str(ln.get("point", "")).startswith("api.force")}
     for v in viol:
         inv, scn = v[1], v[2]
         if (inv, scn) in seen:
@@ -199,7 +210,9 @@ def judge(ctx, pid, scenarios, lines):
         h1 = next((h for h in m.get("hooks", []) if h["id"] == "h1"), {})
         sig = {"inv": inv, "scn": scn, "gated": bool(m.get("gate")),
                "same_moment_later_weight": bool(h1) and h1["tm"] == h1["am"] and h1["aw"] > h1["tw"],
-               "h1": "%s->%s" % (expr(h1.get("tm", ""), h1.get("tw", 0)), expr(h1.get("am", ""), h1.get("aw", 0))), "detail": str(v[4])[:160]}
+               "h1": "%s->%s" % (expr(h1.get("tm", ""), h1.get("tw", 0)), expr(h1.get("am", ""), h1.get("aw", 0))), "detail": str(v[4])[:160],
+               # the state was written to ERROR without a transition (GO_ERROR itself was refused): recorded fact api.force.done
+               "forced_error": scn in forced}
         if inv in INVS[pid]:
             ctx.add_violation(sig, replay_obj={"scenario": by_id.get(scn), "trace": [l for l in lines if l.get("scn") == scn]})
         else:
